@@ -213,6 +213,25 @@ def run(ctx):
                                             or s.startswith('psf_memset(ptr, 0') or s.startswith('psf_close(psf)') or s.startswith('printf(') or s.startswith('snprintf(data, datasize'))]
             ctx.ob('NO-EFFECT', key, not bad, f.loc(f.body), 'rejecting branch of `%s` %s' % (cond[:90], 'has no side effect besides error/log/zero-fill' if not bad else 'has side effects: %s' % bad), None)
 
+    ctx.rule('OPEN-MODE', 'psf_open_file explored with an open mode that is none of SFM_READ / SFM_WRITE / SFM_RDWR (0, 1, 0x11, 0x21, 0x31, 0x40, 0x50, 0x130, -1; container RAW, which needs nothing from the '
+             'file): no path reaches the success return and SFE_BAD_OPEN_MODE is recorded - sf_open_fd and sf_open_virtual store the caller\'s mode unchecked, this test is all there is', floor=9)
+    from engine.peval import PEval as _PE9
+    from engine.effects import Effects as _Ef9
+    pe9 = _PE9(prog, sticky=('sf.format', 'file.mode', 'sf.channels', 'sf.samplerate', 'endian'), effects=_Ef9(prog))
+    of9 = prog.fn('psf_open_file', 'sndfile.c')
+    E9 = prog.enums
+    fmt9 = E9['SF_FORMAT_RAW'] | E9['SF_FORMAT_PCM_16']
+    for bad_mode in (0, 1, 0x11, 0x21, 0x31, 0x40, 0x50, 0x130, -1):
+        env9 = {'psf->sf.format': fmt9, 'psf->sf.channels': 1, 'psf->sf.samplerate': 44100, 'sfinfo->format': fmt9, 'sfinfo->channels': 1, 'sfinfo->samplerate': 44100,
+                'psf->file.mode': bad_mode, 'psf->error': 0}
+        r9 = pe9.explore(of9, env9)
+        pe9.memo.clear()
+        succ9 = any(fn_ == 'psf_open_file' and v_ != 0 for (fn_, line_, v_) in r9.ret_sites)
+        blob9 = [str(x[2]) for x in r9.local_assigns] + [str(x) for x in r9.store_exprs]
+        refused9 = any('SFE_BAD_OPEN_MODE' in x for x in blob9)
+        ctx.ob('OPEN-MODE', 'mode=%s' % hex(bad_mode), (not succ9) and refused9, of9.loc(of9.body), 'open mode %s: %s' % (hex(bad_mode), 'refused with SFE_BAD_OPEN_MODE, no success path' if (not succ9) and refused9 else
+               'the open %s: a handle whose mode is none of read / write / read-write comes out of sf_open_fd / sf_open_virtual' % ('has a feasible success path' if succ9 else 'fails, but not with SFE_BAD_OPEN_MODE')), None)
+
     ctx.rule('SEEK-CLEAN', 'every function installed in the seek slot: (a) a rejecting return that is decided by the request or the handle alone (no call in the conditions it runs under) is not reachable '
              'from a psf_fseek or a store into the codec\'s private state - the invalid call fails cleanly, what is written or read next goes where it would have gone; (b) a call through a function '
              'pointer kept in the codec\'s private struct is dominated by a test of that pointer unless every allocator of the struct (or the init it calls) assigns it - a handle opened for '
